@@ -242,9 +242,22 @@ class Endpoint(Path):
         return self.ep.aclose()
 
 
+class EndpointBehindReader(Endpoint):
+    """aclose() while another task is parked in recv_packet() on the same endpoint: closing is not a receive, it goes ahead."""
+
+    name = "AsyncStreamEndpoint.aclose (another task is parked in recv_packet)"
+
+    async def setup(self) -> None:
+        await super().setup()
+        rt = asyncio.ensure_future(_swallow(self.ep.recv_packet()))
+        await harness.settle()
+        self.cleanup.append(rt.cancel)
+
+
 class TCPClient(Path):
     name = "AsyncTCPNetworkClient.aclose"
     with_sender = False
+    with_reader = False
 
     async def setup(self) -> None:
         from easynetwork.clients.async_tcp import AsyncTCPNetworkClient
@@ -267,6 +280,10 @@ class TCPClient(Path):
             st = asyncio.ensure_future(self.client.send_packet("blocked"))
             await harness.settle()
             self.cleanup.append(st.cancel)
+        if self.with_reader:
+            rt = asyncio.ensure_future(_swallow(self.client.recv_packet()))
+            await harness.settle()
+            self.cleanup.append(rt.cancel)
 
     def close(self) -> Awaitable[None]:
         return self.client.aclose()
@@ -275,6 +292,11 @@ class TCPClient(Path):
 class TCPClientBehindSender(TCPClient):
     name = "AsyncTCPNetworkClient.aclose (behind a suspended sender)"
     with_sender = True
+
+
+class TCPClientBehindReader(TCPClient):
+    name = "AsyncTCPNetworkClient.aclose (another task is parked in recv_packet)"
+    with_reader = True
 
 
 class UDPClient(Path):
@@ -371,6 +393,67 @@ class ServerSideClient(Path):
 class ServerSideClientBehindSender(ServerSideClient):
     name = "server-side client aclose behind a suspended send_packet"
     behind_sender = True
+
+
+class ServerSideTeardownBehindSender(Path):
+    """Not an aclose() call: the tear-down of a connection of the low-level AsyncStreamServer (the peer leaves, the handler generator is
+    closed, the server closes the transport) while another task is suspended in client.send_packet() on that connection."""
+
+    name = "AsyncStreamServer connection tear-down behind a suspended send_packet"
+
+    async def setup(self) -> None:
+        from easynetwork.lowlevel.api_async.servers.stream import AsyncStreamServer
+        from easynetwork.protocol import StreamProtocol
+        from easynetwork.serializers.line import StringLineSerializer
+
+        self.backend = harness.HarnessBackend()
+        self.sock, self.peer_sock = harness.loopback_tcp_pair()
+        self.cleanup += [self.sock.close, self.peer_sock.close]
+        self.listener = memtransport.MemListener(self.backend)
+        server = AsyncStreamServer(self.listener, StreamProtocol(StringLineSerializer()), max_recv_size=1024)
+        got: dict[str, Any] = {}
+        ready = asyncio.Event()
+
+        async def handler(client: Any) -> Any:
+            got["client"] = client
+            ready.set()
+            while True:
+                yield
+
+        self.serve_task = asyncio.ensure_future(server.serve(handler))
+        await harness.settle()
+        self.rx, self.tx = memtransport.MemPipe(), memtransport.MemPipe(capacity=16)
+        self.t = self.inner(1, self.rx, self.tx, extra=harness.socket_extra(self.sock))
+        self.listener.push(self.t)
+        await asyncio.wait_for(ready.wait(), 5)
+        self.client = got["client"]
+        self._sender = asyncio.ensure_future(_swallow(self.client.send_packet("x" * 4096)))
+        await harness.settle()
+
+        async def stop() -> None:
+            self._sender.cancel()
+            self.serve_task.cancel()
+            await asyncio.gather(self._sender, self.serve_task, return_exceptions=True)
+            await self.listener.aclose()
+
+        self.cleanup.append(stop)
+
+    def close(self) -> Awaitable[None]:
+        async def teardown() -> None:
+            self.rx.close_write()  # the peer's end of the stream
+            for _ in range(400):
+                if self.t.is_closing() or self.serve_task.done():
+                    break
+                await asyncio.sleep(0)
+            for _ in range(20):
+                await asyncio.sleep(0)
+            if self.serve_task.done():
+                raise RuntimeError("serve() ended")
+
+        return teardown()
+
+    def second(self) -> Awaitable[None]:
+        return self.client.aclose()
 
 
 class SocketAdapter(Path):
@@ -502,6 +585,43 @@ class TCPClientWhileConnecting(Path):
         return self.client.aclose()
 
 
+class UDPClientWhileConnecting(Path):
+    """The same for the UDP client: aclose() while send_packet() of another task is creating the (lazy) endpoint."""
+
+    name = "AsyncUDPNetworkClient.aclose (send_packet is connecting)"
+
+    async def setup(self) -> None:
+        from easynetwork.clients.async_udp import AsyncUDPNetworkClient
+        from easynetwork.protocol import DatagramProtocol
+        from easynetwork.serializers.line import StringLineSerializer
+
+        self.backend = harness.HarnessBackend()
+        path = self
+        never = asyncio.Event()
+
+        async def create_udp_endpoint(*a: Any, **kw: Any) -> Any:
+            try:
+                await never.wait()
+            except asyncio.CancelledError:
+                path.log({"ev": "inner_close", "i": 1})  # the pending attempt (and whatever socket it had) is given up
+                raise
+            raise AssertionError("unreachable")
+
+        self.backend.create_udp_endpoint = create_udp_endpoint  # type: ignore[method-assign]
+        self.client = AsyncUDPNetworkClient(("verif.invalid", 9), DatagramProtocol(StringLineSerializer()), backend=self.backend)
+        self.sender = asyncio.ensure_future(self.client.send_packet("hello"))
+        await harness.settle()
+
+        async def stop() -> None:
+            self.sender.cancel()
+            await asyncio.gather(self.sender, return_exceptions=True)
+
+        self.cleanup.append(stop)
+
+    def close(self) -> Awaitable[None]:
+        return self.client.aclose()
+
+
 PATHS: list[type[Path]] = [
     TLSCloseAnswer,
     TLSCloseStall,
@@ -519,6 +639,10 @@ PATHS: list[type[Path]] = [
     DatagramSocketAdapter,
     ListenerAdapter,
     TCPClientWhileConnecting,
+    UDPClientWhileConnecting,
+    EndpointBehindReader,
+    TCPClientBehindReader,
+    ServerSideTeardownBehindSender,
 ]
 
 
